@@ -43,7 +43,11 @@ def gen(rng, i):
         jobs.append({"S": rng.choice([0, 0, 100, 300]), "D": rng.choice([100, 200, 200, 450]),
                      "fail": rng.random() < 0.15, "y": rng.choice([1, 1, 2, 2, 3, 0]), "yexc": rng.random() < 0.25,
                      "K": rng.choice([None, None, None, 150, 200, 250, 700]), "C": rng.random() < 0.5})
-    return {"flavour": "manual" if i % 2 == 0 else "pool", "jobs": jobs,
+    none_job = None
+    ok = [j + 1 for j, jb in enumerate(jobs) if not jb["fail"]]
+    if ok and rng.random() < 0.25:
+        none_job = rng.choice(ok)       # this delegate callable returns None
+    return {"flavour": "manual" if i % 2 == 0 else "pool", "jobs": jobs, "none_job": none_job,
             "cancel_fn": rng.choice([None, None, "true", "false", "raise"]),
             "poll_raise": rng.choice([0, 0, 0, 1, 2, 3]), "poll_raise_after": rng.random() < 0.5,
             "poll_dur": rng.choice([0, 0, 0, 40]), "poll_mutates": rng.random() < 0.3,
